@@ -220,13 +220,14 @@ theorem remove_tests_as_modelled :
        "if (all_users[idx] == ip)",
        "all_users[idx] = 0;"] := by decide
 
-/-- inventory of EVERY place in backend.c, error_context.c, comm.c and call_out.c where the driver itself starts LPC code
-    (file : function : call : what), in source order.  Modelled: connect (own recovery point - `mudlibConnect`), logon
+/-- inventory of every place in the MODELLED functions of backend.c, error_context.c, comm.c and call_out.c where the
+    driver itself starts LPC code (file : function : call : what), in source order (the other functions:
+    `no_new_unprotected_apply_site`).  Modelled: connect (own recovery point - `mudlibConnect`), logon
     (safe_apply since the fix commit - `logonHook`), clean_up (recovery point of the sweep -
     `cleanupObject`), heart_beat (`hbLoop`), the master's error_handler (errors re-enter error_handler -
     `callMasterHandler`), process_input x2 of process_user_command (`inputStage`), net_dead (safe_apply - `netDeadHook`), the
-    input_to callback (`inputToCommand`), write_prompt (`promptStage`), both call_out forms (per-entry recovery point - `sweepCallOuts`).  Not modelled
-    (see not_covered): preload/epilog (before backend()), receive_snoop, the three telnet callbacks (safe_apply, C13),
+    input_to callback (`inputToCommand`), write_prompt (`promptStage`), both call_out forms (per-entry recovery point - `sweepCallOuts`).  receive_snoop (safe_apply - `snoopHook`).  Not modelled
+    (see not_covered): the three telnet callbacks (safe_apply, C13),
     process_input of the ASCII port in get_user_data, address-server
     callbacks, notify_fail closure.  A NEW site - protected or not - changes this list and breaks the obligation. -/
 theorem apply_sites_as_modelled :
@@ -239,24 +240,26 @@ theorem apply_sites_as_modelled :
        "backend.c:preload_objects:apply_master_ob:APPLY_PRELOAD",
        "error_context.c:mudlib_error_handler:apply_master_ob:APPLY_ERROR_HANDLER",
        "error_context.c:mudlib_error_handler:apply_master_ob:APPLY_ERROR_HANDLER",
-       "comm.c:receive_snoop:apply:APPLY_RECEIVE_SNOOP",
-       "comm.c:copy_chars:safe_apply:APPLY_TERMINAL_TYPE",
-       "comm.c:copy_chars:safe_apply:APPLY_WINDOW_SIZE",
-       "comm.c:copy_chars:safe_apply:APPLY_TELNET_SUBOPTION",
+       "comm.c:receive_snoop:safe_apply:APPLY_RECEIVE_SNOOP",
        "comm.c:process_user_command:apply:APPLY_PROCESS_INPUT",
        "comm.c:process_user_command:apply:APPLY_PROCESS_INPUT",
-       "comm.c:get_user_data:apply:APPLY_PROCESS_INPUT",
-       "comm.c:get_user_data:apply:APPLY_PROCESS_INPUT",
        "comm.c:remove_interactive:safe_apply:APPLY_NET_DEAD",
        "comm.c:call_function_interactive:call_function_pointer:funp",
        "comm.c:print_prompt:apply:APPLY_WRITE_PROMPT",
-       "comm.c:query_addr_number:apply:call_back",
-       "comm.c:query_addr_number:apply:call_back",
-       "comm.c:query_addr_number:apply:call_back",
-       "comm.c:got_addr_number:safe_apply:ipnumbertable[i].call_back",
-       "comm.c:notify_no_command:safe_call_function_pointer:p.f",
        "call_out.c:call_out:apply:cop->function.s",
        "call_out.c:call_out:call_function_pointer:cop->function.f"] := by decide
+
+/-- functions outside the model that start LPC code WITHOUT a recovery point of their own (copy of the state this was
+    written against) -/
+def unprotectedAllowed : List String :=
+  ["comm.c:get_user_data",
+   "comm.c:query_addr_number"]
+
+/-- in the functions the model does not mirror, no NEW unprotected driver-initiated apply appears: protecting one of the
+    known sites, or adding a protected one, does not break this obligation (it is a subset test, not an equality) -/
+theorem no_new_unprotected_apply_site :
+    NV.Gen.C09.unprotectedElsewhere.all (fun x => unprotectedAllowed.contains x) = true := by decide
+
 
 /-- `preloadObjects` / `preloadFiles`: epilog() under its own recovery point (error: restore, pop, return - nothing is
     preloaded); then the files under a second recovery point IN FRONT of the loop, whose error branch does `ix++` (the
@@ -315,7 +318,8 @@ theorem error_handler_stmts_as_modelled :
 
 /-- every source shape of the repaired code that the model mirrors is present (all_users guard, re-validation through
     the object, recovery point before the start-up steps, load-average clamp, connect() under its own recovery point,
-    pending events cleared when a record is freed, logon() under its own recovery point) -/
-theorem guards_present : NV.Gen.C09.guardsPresent = [1, 1, 1, 1, 1, 1, 1] := by decide
+    pending events cleared when a record is freed, logon() under its own recovery point, the record re-validated after the CR LF echo in copy_chars(), the snoop
+    forwarding of get_user_data() behind the CMD_IN_BUF update) -/
+theorem guards_present : NV.Gen.C09.guardsPresent = [1, 1, 1, 1, 1, 1, 1, 1, 1] := by decide
 
 end NV.C09
